@@ -44,19 +44,49 @@ class World:
 
         ss.check_received = wrapped
         self.with_entry = with_entry
+        self.started = False
 
     def _spy(self, comp, addr):
         self.calls.append((comp, addr))
 
     def save(self):
         ss = self.prot.session_storage
-        return tuple(sorted(ss.incoming.items()))
+        st = tuple(sorted(ss.incoming.items()))
+        return (st, "started") if self.started else st
+
+    def _lifecycle(self, want):
+        if want and not self.started:
+            self.prot.start()
+        elif self.started and not want:
+            self.prot.stop()
+        self.started = want
+        self.loop.settle()
 
     def restore(self, state):
         ss = self.prot.session_storage
-        ss.incoming = dict(state)
+        started = len(state) == 2 and state[1] == "started"
+        if started:
+            state = state[0]
+        if started != self.started:
+            self._lifecycle(started)
+        ss.incoming.clear()
+        ss.incoming.update(dict(state))
 
     def send(self, letter):
+        if letter[0] == "@":
+            # lifecycle of the receiving endpoint: start(), or stop() and start() again; what was received before
+            # still is "the previous message" of each sender
+            self.calls.clear()
+            self.returns.clear()
+            exc = None
+            try:
+                if self.started:
+                    self._lifecycle(False)
+                self._lifecycle(True)
+            except Exception as e:  # noqa: BLE001
+                exc = type(e).__name__
+            self.prot.transport.sent.clear()
+            return list(self.calls), list(self.returns), exc
         sender, multicast, flag, sid = letter[:4]
         uflag = letter[4] if len(letter) > 4 else 1  # the SD unicast flag: clear = entries ignored, sender still tracked
         entries = []
@@ -79,6 +109,8 @@ class World:
 
 def model_step(model: dict, letter):
     """reference rule, straight from the statement"""
+    if letter[0] == "@":
+        return None, dict(model)
     sender, multicast, flag, sid = letter[:4]
     k = (sender, multicast)
     prev = model.get(k)
@@ -94,6 +126,10 @@ def model_step(model: dict, letter):
 def judge(letter, detect, calls, returns, exc):
     sender = letter[0]
     out = []
+    if detect is None:
+        if exc or calls or returns:
+            out.append(dict(clause="lifecycle", disc=exc or "spurious-detection", detail=f"start/stop: exc={exc} calls={calls}"))
+        return out
     if exc:
         out.append(dict(clause="no-exception", disc=exc, detail=f"datagram_received raised {exc}"))
         return out
@@ -143,6 +179,7 @@ def expand(alphabet, with_entry, node):
             raise AssertionError("model bug")
         nnode = (nimpl, tuple(sorted(nmodel.items())))
         out.append((letter, nnode, nnode, viols, ("detect" if detect else "quiet", letter[1], letter[2])))
+
     return out
 
 
@@ -189,6 +226,8 @@ def check(ctx):
         ("ipv6-same-host-other-scope-depth-3", letters("RST", (1,)), 3, False),
         # messages whose SD unicast flag is clear: their entries are ignored (C03), the sender's reboot is not
         ("one-sender-unicast-flag-set-or-clear-closure", [l + (u,) for l in letters("P", (0, 1)) for u in (0, 1)], 10 ** 6, True),
+        # the receiving endpoint is started late, or stopped and started again, between messages
+        ("one-sender-endpoint-lifecycle-closure", letters("P", (0, 1)) + [("@", 0, 0, 0)], 10 ** 6, False),
     ]
     if ctx.thorough:
         searches.append(("four-keys-closure", letters("PQ", (0, 1)), 10 ** 6, False))
